@@ -12,17 +12,26 @@ NM = dict(VSF, file="hdf/src/vg.c", mode="bounded", unwind=131, cex_unwind=131,
           bound="new name length <= 128 = 2 x VSNAMELENMAX (libc string loops unwound)")
 ob("VSsetname", ["C07", "C20"], entry="h_VSsetname", enforce="VSsetname", **NM)          # ~100 s
 ob("VSsetclass", ["C07", "C20"], entry="h_VSsetclass", enforce="VSsetclass", tier="thorough", **NM)
-ob("VSsetfields_new", ["C07", "C20"], entry="h_VSsetfields_new", enforce="VSsetfields", mode="bounded",
-   bound="<= 4 requested fields (or > VSFIELDMAX), <= 3 user symbols, names <= 2 characters", overflow=True,
-   defines=["H4V_SMALL_STR", "NMLEN=2"], unwind=12, cex_unwind=14, timeout=900,
-   **dict(VSF, trusted=VSF["trusted"] + ["strcmp/strdup replaced by unrolled models that are exact for names <= 2 characters"]))
+# VSsetfields (bounded contract + harness h_VSsetfields_new exist in the unit): not registered -- cbmc does not
+# finish within 15 min even for 2 requested fields / 1 user symbol (see the author's report).
 
 # ----------------------------------------------------------------------------- vrw.c
 VRW = dict(unit="vrw_u.c", file="hdf/src/vrw.c",
            trusted=["Hseek: logs (aid, offset, origin), answers SUCCEED/FAIL", "HAatom_group/HAatom_object: harness-built instance or NULL"])
 ob("VSseek", ["C07", "C20"], entry="h_VSseek", enforce="VSseek", overflow=True, **VRW)
+# the byte offset is the true product: one record size per run (symbolic x symbolic is not tractable)
+for w in (6, 4096, 65535):
+    ob(f"VSseek_w{w}", ["C07", "C20"], entry="h_VSseek", enforce="VSseek", overflow=True,
+       defines=[f"VSSEEK_W={w}", "VSSEEK_FIX"], **VRW)
 
-# ----------------------------------------------------------------------------- vio.c
-ob("vpack_roundtrip", ["C07", "C02"], unit="vio_u.c", file="hdf/src/vio.c", entry="h_vpack_roundtrip", enforce=None,
-   mode="bounded", bound="<= 3 fields, names/vsname/vsclass <= 3 characters, <= 2 attributes, version in {3,4}",
-   unwind=14, cex_unwind=14, trusted=["map_from_old_types (vconv.c): identity, only reached for version <= 2 (outside the domain)"])
+# vio.c vpackvs/vunpackvs round trip (units/vio_u.c, h_vpack_roundtrip): not registered -- cbmc runs out of
+# memory / time even for 0 fields with concrete names (the header offsets stay symbolic through strlen).
+
+prop("C07",
+     residual="VSsetfields offsets/ivsize, VSread/VSwrite gather-scatter, VSfpack and the vpackvs/vunpackvs round trip are NOT decided "
+              "(attempted, not tractable with cbmc on this image); append across linked blocks, detach/re-attach, "
+              "transfer-buffer boundary (VDATA_BUFFER_MAX); field-name parsing (vparse.c scanattrs) is a trusted stub",
+     assumptions=["A-SCANATTRS: vparse.c scanattrs is not verified (trusted stub: FAIL or >= 1 NUL-terminated tokens); "
+                  "by reading, 256 or more tokens overrun its static sym/symptr tables",
+                  "A-REALLOC-GHOST: in VSfdefine realloc is modelled as fresh block + copy of the ghost elements (cbmc's "
+                  "whole-array copy of symbolic size is not tractable)"])
